@@ -1,0 +1,28 @@
+//go:build verif
+
+package command
+
+// Contracts for the deductive verifier in /verif (govc). Comment-only file:
+// with the build tag off it is not part of any build, with it on it adds no code.
+
+//@ pure func hasPrefix(s string, p string) bool =
+//@     len(p) <= len(s) && forall i int :: 0 <= i && i < len(p) ==> s[i] == p[i]
+//@
+//@ pure func validCmd(s string) bool =
+//@     len(s) >= 1 && s[0] == '/' && (len(s) == 1 || s[len(s)-1] != '/') && toLower(s) == s
+//@
+//@ pure func coversSpec(c string, o string) bool =
+//@     hasPrefix(o, c) && (c == "/" || len(c) == len(o) || o[len(c)] == '/')
+//@
+//@ func Parse
+//@   ensures [C15,C10,C07] valid: (result1 == nil) == validCmd(s)
+//@   ensures [C15,C07] unchanged: result1 == nil ==> string(result0) == s
+//@
+//@ func (Command).Covers
+//@   ensures [C15,C02] spec: result == coversSpec(string(c), string(other))
+//@
+//@ lemma [C15] covers_refl(a string): validCmd(a) ==> coversSpec(a, a)
+//@ lemma [C15] covers_antisym(a string, b string): coversSpec(a, b) && coversSpec(b, a) ==> a == b
+//@ lemma [C15] covers_trans(a string, b string, c string): validCmd(a) && validCmd(b) && validCmd(c) && coversSpec(a, b) && coversSpec(b, c) ==> coversSpec(a, c)
+//@ lemma [C15] top_covers(b string): validCmd(b) ==> coversSpec("/", b)
+//@ lemma [C15] no_textual_prefix(a string, b string): a != "/" && hasPrefix(b, a) && len(b) > len(a) && b[len(a)] != '/' ==> !coversSpec(a, b)
